@@ -79,10 +79,10 @@ func vC08Authonly(keys []string, small bool) {
 	}
 }
 
-// verif: unwind=8 strlen=8 concretize=4
+// verif: unwind=8 strlen=8 concretize=4 also=C19
 func vh_C08_authonly_groups() { vC08Authonly([]string{"allowed_groups"}, false) }
 
-// verif: unwind=8 strlen=8 concretize=4
+// verif: unwind=8 strlen=8 concretize=4 also=C19
 func vh_C08_authonly_emails() { vC08Authonly([]string{"allowed_emails"}, false) }
 
 // verif: unwind=8 strlen=8 concretize=4 paths=40000 tiers=thorough tstrlen=10 tunwind=10
@@ -94,7 +94,7 @@ var vC08DomainVal = regexp.MustCompile(`^\.?[a-z]{1,3}(\.[a-z]{1,2})?(:[0-9]{1,2
 var vC08Email = regexp.MustCompile(`^[a-z]{1,2}(@[a-z.:0-9]{0,6}){0,2}$`)
 
 // all three constraints must hold together: with concrete constraints that each admit / refuse
-// verif: unwind=8 strlen=8 concretize=4
+// verif: unwind=8 strlen=8 concretize=4 also=C19
 func vh_C08_authonly_all() {
 	s := vSessionMain("sess")
 	verifAssume(strings.Count(s.Email, "@") <= 3)
@@ -111,7 +111,7 @@ func vh_C08_authonly_all() {
 }
 
 // a concrete domain constraint against every e-mail (multi-'@' addresses included)
-// verif: unwind=8 strlen=14 concretize=4
+// verif: unwind=8 strlen=14 concretize=4 also=C19
 func vh_C08_authonly_domain_concrete() {
 	s := vSessionMain("sess")
 	verifAssume(strings.Count(s.Email, "@") <= 3)
